@@ -79,8 +79,9 @@ type BoundedSpec struct {
 }
 
 type AtCall struct {
-	Match string
-	C     Clause
+	Match  string
+	C      Clause
+	Always bool // at_call <callee>! ...: the matched call must have been executed on every path that returns
 }
 
 type SpecDef struct {
@@ -532,7 +533,9 @@ func (cs *Contracts) LoadFile(path, pkgPath string) error {
 				if err != nil {
 					return fail(err)
 				}
-				cur.AtCalls = append(cur.AtCalls, AtCall{Match: strings.TrimSuffix(f[0], ":"), C: c})
+				mt := strings.TrimSuffix(f[0], ":")
+				always := strings.HasSuffix(mt, "!")
+				cur.AtCalls = append(cur.AtCalls, AtCall{Match: strings.TrimSuffix(mt, "!"), C: c, Always: always})
 			case "writes":
 				// the callee overwrites the contents of this slice parameter (same length): in ensures the name
 				// denotes the new contents, old(name) the former ones
